@@ -23,8 +23,9 @@ func init() {
 		}
 		for i := 0; i < n; i++ {
 			g := newDocgen(rng, false)
-			doc := dMap(dkv{"steps", g.signableSteps(3, 4, false)})
 			penv := g.pipelineEnv()
+			g.penvNames = sortedKeys(penv)
+			doc := dMap(dkv{"steps", g.signableSteps(3, 4, false)})
 			if len(penv) > 0 && rng.Chance(60) {
 				e := dMap()
 				for _, k := range sortedKeys(penv) {
